@@ -736,6 +736,11 @@ class Message:
                 raise error.MalformedUrlError(
                     "An IP literal in brackets needs to be the complete host"
                 )
+            if not _zone_is_unreserved(literal):
+                # (ipaddress would take any text, also blanks or quotes)
+                raise error.MalformedUrlError(
+                    "Zone identifiers in CoAP URIs are limited to unreserved characters"
+                )
 
         try:
             if parsed.path not in ("", "/"):
